@@ -18,9 +18,11 @@ pub enum Shape {
     DeepSwitch,
     /// map2 tree over chains of different lengths
     Tree,
+    /// the same with the shorter chain as first input
+    TreeRev,
 }
 
-pub const SHAPES: [Shape; 5] = [Shape::Chain, Shape::ChainInBind, Shape::BindTower, Shape::DeepSwitch, Shape::Tree];
+pub const SHAPES: [Shape; 6] = [Shape::Chain, Shape::ChainInBind, Shape::BindTower, Shape::DeepSwitch, Shape::Tree, Shape::TreeRev];
 
 struct Built {
     obs: incremental::Observer<i64>,
@@ -66,10 +68,10 @@ fn build(st: &IncrState, shape: Shape, s: usize) -> Built {
             let top = sel.bind(move |x| if *x == 0 { shallow.clone() } else { deep.clone() }).map(|x| x + 100);
             Built { obs: top.observe(), sel: Some(sel), base, expected_first: 100, expected_second: 100 + s as i64 }
         }
-        Shape::Tree => {
+        Shape::Tree | Shape::TreeRev => {
             let a = chain_from(&base.watch(), s);
             let b = chain_from(&base.watch(), s / 2);
-            let top = a.map2(&b, |x, y| x + y).map(|x| x + 1);
+            let top = if shape == Shape::Tree { a.map2(&b, |x, y| x + y) } else { b.map2(&a, |x, y| x + y) }.map(|x| x + 1);
             let e = (s + s / 2 + 1) as i64;
             Built { obs: top.observe(), sel: None, base, expected_first: e, expected_second: e }
         }
@@ -340,9 +342,12 @@ pub fn run_heights(lo: usize, hi: usize) -> J {
         for shape in SHAPES {
             // sizes that put the needed height at N-1, N, N+1, N+2 (roughly; measured exactly)
             let mut sizes: Vec<usize> = vec![];
-            for s in 0..=(n + 3) {
+            for s in 0..=(n + 6) {
                 let (_, h2) = measure(shape, s);
-                if (h2 as i64 - n as i64).abs() <= 1 || (h2 as i64 - n as i64) == 2 {
+                let excess = h2 as i64 - n as i64;
+                // (for the two-input shapes also graphs so tall that the limit is hit inside one
+                // input chain, i.e. while the two-input node is only partly linked)
+                if excess.abs() <= 1 || excess == 2 || (matches!(shape, Shape::Tree | Shape::TreeRev) && (3..=4).contains(&excess)) {
                     sizes.push(s);
                 }
             }
